@@ -107,8 +107,8 @@ def campaign(build, tier, seed, report, budget=1):
             i = k * CH + idx
             a, b, c, dim, fmt = cases[i]
             r = res[i]
-            kind = {1: "representation", 2: "value", 3: "value"}[code]
-            clause = {1: None, 2: None, 3: "D1_user_stop_in_[step,-1]_with_negative_step"}[code]
+            kind = {1: "representation", 2: "value"}[code]
+            clause = None
             viol.append({"property": "C02", "op": "getitem_slice", "kind": kind, "clause": clause, "format": fmt,
                          "case": {"start": a, "stop": b, "step": c, "dim": dim, "format": fmt},
                          "impl": r, "expected_selection": r.get("py"),
